@@ -17,6 +17,8 @@ L = {}
 L.update(lemmas(COQ + '/Proofs/C15.v'))
 L.update(lemmas(COQ + '/Proofs/C15Owners.v'))
 L.update(lemmas(COQ + '/Proofs/C15Strftime.v'))
+L.update(lemmas(COQ + '/Proofs/C15Wide.v'))
+L.update(lemmas(COQ + '/Proofs/C15Text.v'))
 
 SECTIONS = [
  ("NaiveDate constructors (C01): every i32 / u32 argument; never a trap; the date returned is valid", [
@@ -47,14 +49,18 @@ SECTIONS = [
    ('C15_from_timestamp_micros_total', 'from_timestamp_micros_total', ''),
    ('C15_from_timestamp_nanos_total', 'from_timestamp_nanos_total', ''),
    ('C15_tz_timestamp_total', 'tz_timestamp_total', 'TimeZone::timestamp_opt / timestamp_millis_opt / timestamp_micros, fixed offset or Utc'),
-   ('C15_timestamp_nanos_opt_total_partial', 'timestamp_nanos_opt_total', 'PARTIAL: non-leap values (C02 covers second-59 leap values separately; a leap fraction on another second: correspondence + judge)'),
+   ('C15_timestamp_nanos_opt_total', 'timestamp_nanos_opt_full', 'EVERY well-formed date-time, a leap-second fraction on any second included: never a trap; a returned count is the instant and fits i64 (None exactly outside i64 on non-leap and second-59 values: C02_timestamp_nanos_opt_spec / _leap59)'),
+   ('C15_timestamp_nanos_opt_total_partial', 'timestamp_nanos_opt_total', 'the older form: non-leap values (kept under its name; superseded by C15_timestamp_nanos_opt_total)'),
  ]),
- ("Elapsed-time arithmetic (C03).  PARTIAL where named so: C03's exactness theorems are over non-leap values (its tvalid: frac < 10^9); leap-second operands are C07's (C07_ndt_leap_add_partial) and otherwise correspondence + judge", [
-   ('C15_ndt_signed_total_partial', 'ndt_signed_total', ''),
+ ("Elapsed-time arithmetic (C03 for non-leap values, C07's timeline theorems C07_ndt_leap_add / _sub for leap-second operands): EVERY well-formed date-time ([Proofs.C04.ndt_ok] / [dtz_ok]: nanosecond field < 2*10^9), every duration, every u64 day count; the result is well-formed again.  The forms named _partial are the older statements over non-leap values (C03's nvalid), kept under their names", [
+   ('C15_ndt_signed_total', 'ndt_signed_full', 'leap-second operands included'),
+   ('C15_ndt_days_total', 'ndt_days_full', 'leap-second operands included; Days::new(u64::MAX) included'),
+   ('C15_dtz_signed_total', 'dtz_signed_full', 'leap-second operands included; the offset is kept'),
    ('C15_date_days_total', 'date_days_total', 'Days::new(u64::MAX) included'),
    ('C15_date_signed_total', 'date_signed_total', 'TimeDelta::MIN / MAX included'),
-   ('C15_ndt_days_total_partial', 'ndt_days_total', ''),
-   ('C15_dtz_signed_total_partial', 'dtz_signed_total', ''),
+   ('C15_ndt_signed_total_partial', 'ndt_signed_total', 'older form: non-leap values'),
+   ('C15_ndt_days_total_partial', 'ndt_days_total', 'older form: non-leap values'),
+   ('C15_dtz_signed_total_partial', 'dtz_signed_total', 'older form: non-leap values'),
  ]),
  ("Zone-aware date-times (C04): fixed offsets and Utc", [
    ('C15_fixed_offset_ctor_total', 'fixed_offset_ctor_total', 'east_opt is a plain function (no trapping step); west_opt negates: i32::MIN is refused before the negation'),
@@ -64,9 +70,12 @@ SECTIONS = [
    ('C15_dtz_with_time_field_total', 'dtz_with_time_field_total', 'with_hour / with_minute / with_second / with_nanosecond of DateTime: any wall clock, headroom dates included'),
    ('C15_with_ymd_and_hms_total', 'with_ymd_and_hms_total', ''),
    ('C15_ndt_offset_total', 'ndt_offset_total', 'NaiveDateTime::checked_add_offset / checked_sub_offset (ops c15.ndt.addoff, c15.ndt.suboff)'),
-   ('C15_dtz_with_date_field_partial', 'dtz_with_date_field_partial', 'PARTIAL: wall clock inside the NaiveDateTime range (gap: the two headroom dates; correspondence + judge there)'),
-   ('C15_dtz_days_partial', 'dtz_days_partial', 'PARTIAL: as above'),
-   ('C15_dtz_months_partial', 'dtz_months_partial', 'PARTIAL: as above; Months::new(u32::MAX) included'),
+   ('C15_dtz_with_date_field_total', 'dtz_with_date_field_total', 'with_year / with_month(0) / with_day(0) / with_ordinal(0) of DateTime: EVERY well-formed date-time, wall clock in the one-day headroom included (C04_replace_date_field)'),
+   ('C15_dtz_days_total', 'dtz_days_total', 'checked_add_days / checked_sub_days of DateTime: every well-formed date-time, headroom included (C04_add_days, C04_sub_days); Days::new(u64::MAX) included'),
+   ('C15_dtz_months_total', 'dtz_months_total', 'checked_add_months / checked_sub_months of DateTime: every well-formed date-time, headroom included (C04_months); Months::new(u32::MAX) included'),
+   ('C15_dtz_with_date_field_partial', 'dtz_with_date_field_partial', 'older form: wall clock inside the NaiveDateTime range'),
+   ('C15_dtz_days_partial', 'dtz_days_partial', 'older form: as above'),
+   ('C15_dtz_months_partial', 'dtz_months_partial', 'older form: as above'),
  ]),
  ("Month stepping, date-field replacement, week helpers (C08): every date, every u32 / i32 argument", [
    ('C15_date_months_total', 'date_months_total', ''),
@@ -90,16 +99,28 @@ SECTIONS = [
    ('C15_weekday_month_conversions', 'weekday_month_conversions', 'all thirteen FromPrimitive / TryFrom conversions are plain functions in the model: a returned value is a Weekday / Month'),
    ('C15_weekday_month_from_str_total', 'weekday_month_from_str_total', ''),
  ]),
- ("Rounding (C17): DurationRound for NaiveDateTime ([Proofs.C17.ndt_op m] is duration_trunc / duration_round_up / duration_round of Model/Round.v).  C17 states its theorems modulo the exactness of checked_add_signed / checked_sub_signed / timestamp_nanos_opt ([ndt_links]); the premise is discharged here from C02 and C03.  PARTIAL: non-leap date-times (C03's domain); every span, TimeDelta::MIN / MAX / zero included: failure is by value.  DurationRound for DateTime (repaired f2640c4): correspondence + judge", [
-   ('C15_ndt_links_nonleap', 'ndt_links_nonleap', ''),
-   ('C15_ndt_round_total_partial', 'ndt_round_total_partial', ''),
+ ("Rounding (C17): DurationRound for NaiveDateTime and for DateTime<Tz> ([Proofs.C17.ndt_op m] / [dz_op m] are duration_trunc / duration_round_up / duration_round of Model/Round.v; DateTime as repaired by f2640c4: the wall clock is read with overflowing_naive_local).  EVERY well-formed value, leap-second fractions included, every span (TimeDelta::MIN / MAX / zero included): the call returns -- an error value or a well-formed value.  C17's value theorems (C17_naive_value, C17_zoned_value ...) are over non-leap inputs, whose stamp moves exactly; for a leap-second input the helpers still return (Proofs/C15Wide.v: an i64 stamp pins the input within 106 753 days of the epoch, the amount added or subtracted is a positive span below 2^63 ns, and C07's timeline arithmetic succeeds there); a headroom wall clock has no i64 stamp: Err(TimestampExceedsLimit)", [
+   ('C15_ndt_round_total', 'ndt_round_full', ''),
+   ('C15_dtz_round_total', 'dtz_round_total', 'DateTime<Tz>: duration_round / duration_trunc / duration_round_up'),
+   ('C15_ndt_links_nonleap', 'ndt_links_nonleap', 'the older route: C17 premise discharged from C02 and C03 for non-leap date-times'),
+   ('C15_ndt_round_total_partial', 'ndt_round_total_partial', 'older form: non-leap date-times'),
  ]),
  ("Parsers", [
    ('C15_parse_from_rfc3339_total', 'parse_from_rfc3339_total', 'every well-formed UTF-8 string (C10)'),
    ('C15_parse_items_total_partial', 'parse_items_total', 'format::parse / parse_and_remainder with an explicit item list (C13).  PARTIAL: item lists without Fixed::RFC2822 (C11 owns that reader: C11_comment_total, C11_zone_scanner_total, C11_no_panic_on_grammar_partial; otherwise correspondence + judge)'),
  ]),
- ("The RFC 3339 renderers (C10 writer domain)", [
-   ('C15_to_rfc3339_opts_total_partial', 'to_rfc3339_opts_total_partial', 'PARTIAL: whole-minute offsets, wall-clock year 0..9999, leap-second field only on second 59; elsewhere (both range ends seen through an offset: the repaired defect) correspondence + judge'),
+ ("The RFC 3339 renderers never trap: EVERY well-formed date-time -- any year (the one-day headroom seen through an offset included: the repaired defect of to_rfc3339_opts), any offset (seconds included), leap-second fraction on any second -- and every SecondsFormat (0 Secs .. 4 AutoSi).  The writer is total (Proofs/C15Text.v on the writer lemmas of C09 / C10 / C20); what the text IS is C10's theorem on its writer domain (C10_writer_in_grammar)", [
+   ('C15_to_rfc3339_total', 'to_rfc3339_total', ''),
+   ('C15_to_rfc3339_opts_total', 'to_rfc3339_opts_total', ''),
+   ('C15_to_rfc3339_opts_total_partial', 'to_rfc3339_opts_total_partial', 'older form: C10 writer domain (whole-minute offsets, wall-clock year 0..9999, leap-second field only on second 59)'),
+ ]),
+ ("Debug / Display of values never trap (to_string() / format!(\"{:?}\") panic on a writer error: there is none): every valid NaiveDate, NaiveTime, NaiveDateTime (leap-second fractions included), every FixedOffset (seconds included), Utc, and every well-formed DateTime<Tz> ([utc] = true: Tz = Utc) -- wall clock in the one-day headroom included.  What the text IS: C09's shape theorems (C09_shape_date ...) on their domain", [
+   ('C15_show_date_total', 'show_date_total', ''),
+   ('C15_show_time_total', 'show_time_total', ''),
+   ('C15_show_ndt_total', 'show_ndt_total', ''),
+   ('C15_show_fixed_offset_total', 'show_fixed_offset_total', ''),
+   ('C15_show_utc_total', 'show_utc_total', ''),
+   ('C15_show_dtz_total', 'show_dtz_total', ''),
  ]),
  ("The format-string iterator NEVER TRAPS (dedicated proof, Proofs/C15Strftime.v: every slice of strftime.rs is taken at a character boundary of the well-formed input, the index arithmetic stays in usize, assert!(nextspec > 0) holds), strict or lenient, with or without the repair of error(); with C12's termination theorem: it yields a finite item list of at most 13 items per byte, and StrftimeItems::parse / parse_to_owned / count return", [
    ('C15_strftime_never_panics', 'strftime_never_panics', ''),
@@ -114,7 +135,8 @@ SECTIONS = [
 ]
 HEADER = '''(** C15 -- fallible operations fail by value, not by panic or hang.
     Theorem-only file (written by tools/c15_mkprops.py): each theorem is closed by [exact] of a lemma of
-    Proofs/C15.v, Proofs/C15Owners.v or Proofs/C15Strftime.v and followed by [Print Assumptions].
+    Proofs/C15.v, Proofs/C15Owners.v, Proofs/C15Wide.v, Proofs/C15Text.v or Proofs/C15Strftime.v and followed by
+    [Print Assumptions].
 
     C15 is cross-cutting: its model is the union of all properties' models (Model/C15.v) and its
     theorems are corollaries of the owners' theorems (Props/C01.v ... Props/C19.v), restated in the one
@@ -128,12 +150,13 @@ HEADER = '''(** C15 -- fallible operations fail by value, not by panic or hang.
         Proofs.C04.dtz_ok / ndt_ok / off_ok; Proofs.C06.valid; [time_valid] = Proofs.Time.tvalid).
 
     plus one dedicated proof (Proofs/C15Strftime.v): the slice-safety invariant of the format-string
-    iterator.  Theorems named *_partial exclude a stated sub-domain (the comment in front says which).
+    iterator.  Theorems named *_partial exclude a stated sub-domain (the comment in front says which); where the
+    owners' restrictions have been lifted since, the full statement stands next to the older partial one.
     Which inventory entries (gen/C15_inventory.json, printed in the evidence) have such a theorem and
     which are covered by correspondence + judge only is listed at the end of this file. *)
 From Coq Require Import ZArith List Bool String.
-From V Require Import Base.Int Base.IO Spec.Gregorian Model.Strftime Proofs.C15 Proofs.C15Owners Proofs.C15Strftime.
-From V Require Model.Date Model.Time Model.DateTime Model.TimeDelta Model.DateExtra Model.Parsed Model.Parse Model.Rfc3339 Model.C02 Model.C15 Model.C19 Gen.Strftime.
+From V Require Import Base.Int Base.IO Spec.Gregorian Model.Strftime Proofs.C15 Proofs.C15Owners Proofs.C15Strftime Proofs.C15Wide Proofs.C15Text.
+From V Require Model.Date Model.Time Model.DateTime Model.TimeDelta Model.DateExtra Model.Parsed Model.Parse Model.Rfc3339 Model.Show Model.Round Model.C02 Model.C15 Model.C19 Gen.Strftime.
 Import ListNotations.
 Open Scope Z_scope.
 
@@ -159,6 +182,9 @@ for title, items in SECTIONS:
         out.append('Theorem %s : %s\n  %s.\nProof. exact %s. Qed.\nPrint Assumptions %s.' % (thm, head, stmt, lem, thm))
     out.append('')
 out.append(TAIL)
+if 'wide_hypotheses_inhabited' in L:
+    out.append('(* ... and those of the full forms: [z_wide] = MAX_UTC\'s last second with a leap-second fraction seen from +02:00 (wall clock\n   one day outside the date range), [l_wide] = 2016-12-31T23:59:60.5 (Proofs/C15Text.v) *)')
+    out.append('Example C15_wide_hypotheses_inhabited :\n  %s.\nProof. exact wide_hypotheses_inhabited. Qed.\nPrint Assumptions C15_wide_hypotheses_inhabited.\n' % L['wide_hypotheses_inhabited'][1])
 # closing comment: the inventory by kind of no-panic evidence
 table = json.load(open(os.path.join(ROOT, 'gen', 'C15_inventory.json')))
 groups = {}
@@ -170,6 +196,7 @@ lines = ['(** ** Inventory of the public fallible entry points (gen/C15_inventor
 for kind, test in (('THEOREM of this file', lambda t: t.startswith('C15_') and not t.endswith('_partial')),
                    ('PARTIAL theorem of this file (sub-domain stated at the theorem)', lambda t: t.startswith('C15_') and t.endswith('_partial')),
                    ("OWNER's theorem states [= Val ...] for all typed arguments (not restated here)", lambda t: t.startswith('owner: ')),
+                   ("OWNER's theorem on a stated sub-domain (partial; elsewhere correspondence + judge)", lambda t: t.startswith('owner-partial: ')),
                    ('correspondence + judge ONLY', lambda t: t.startswith('none'))):
     lines.append('   %s:' % kind)
     for t in sorted(groups):
